@@ -205,3 +205,124 @@ func cloneFile(f *model.File) *model.File {
 	}
 	return &out
 }
+
+// reduceStaticCase is the text-level reducer for generator-only failures
+// (E-static / E-cli checks): members of objects and elements of arrays of the
+// first JSON input file are deleted greedily, deepest-last, while
+// stillFails(candidate) holds (the caller compares the failure class). Every
+// candidate is a syntactically valid JSON document; whether it is still a
+// schema the tool accepts is decided by the evaluation itself (a rejected
+// candidate does not "still fail"). Budget = number of evaluations.
+func reduceStaticCase(cs *gen.Case, stillFails func(*gen.Case) bool, budget int) (*gen.Case, int) {
+	if len(cs.Files) == 0 || !strings.HasSuffix(cs.Files[0].RelPath, ".json") {
+		return cs, 0
+	}
+	root, err := jv.Parse([]byte(cs.Files[0].Text))
+	if err != nil {
+		return cs, 0
+	}
+	evals := 0
+	with := func(v jv.V) *gen.Case {
+		nc := *cs
+		nc.Files = append([]gen.FileText{}, cs.Files...)
+		nc.Files[0].Text = string(v.Indent())
+		return &nc
+	}
+	try := func(v jv.V) bool {
+		if evals >= budget {
+			return false
+		}
+		evals++
+		return stillFails(with(v))
+	}
+	// path-addressed edits on an immutable tree
+	type step struct {
+		key string
+		idx int
+	}
+	var get func(v jv.V, p []step) jv.V
+	get = func(v jv.V, p []step) jv.V {
+		for _, s := range p {
+			if v.K == jv.Obj {
+				v, _ = v.Get(s.key)
+			} else {
+				v = v.A[s.idx]
+			}
+		}
+		return v
+	}
+	var put func(v jv.V, p []step, nv jv.V) jv.V
+	put = func(v jv.V, p []step, nv jv.V) jv.V {
+		if len(p) == 0 {
+			return nv
+		}
+		if v.K == jv.Obj {
+			c, _ := v.Get(p[0].key)
+			return v.Clone().Set(p[0].key, put(c, p[1:], nv))
+		}
+		a := jv.V{K: jv.Arr, A: append([]jv.V{}, v.A...)}
+		a.A[p[0].idx] = put(v.A[p[0].idx], p[1:], nv)
+		return a
+	}
+	for pass := 0; pass < 6 && evals < budget; pass++ {
+		progress := false
+		var visit func(p []step)
+		visit = func(p []step) {
+			cur := get(root, p)
+			switch cur.K {
+			case jv.Obj:
+				for _, k := range cur.SortedKeys() {
+					now := get(root, p)
+					if !now.Has(k) || (len(p) == 0 && k == "$id") || k == "$ref" || (k == "type" && now.Has("properties")) {
+						// a reference is removed together with its holder, never turned into {}
+						continue
+					}
+					cand := put(root, p, now.Clone().Del(k))
+					if try(cand) {
+						root = cand
+						progress = true
+						continue
+					}
+					visit(append(append([]step{}, p...), step{key: k}))
+				}
+			case jv.Arr:
+				for i := len(cur.A) - 1; i >= 0; i-- {
+					now := get(root, p)
+					if i >= len(now.A) {
+						continue
+					}
+					a := jv.V{K: jv.Arr, A: append(append([]jv.V{}, now.A[:i]...), now.A[i+1:]...)}
+					cand := put(root, p, a)
+					if try(cand) {
+						root = cand
+						progress = true
+						continue
+					}
+					visit(append(append([]step{}, p...), step{idx: i}))
+				}
+			}
+		}
+		visit(nil)
+		if !progress {
+			break
+		}
+	}
+	// option flags are dropped one at a time as well
+	out := with(root)
+	for _, drop := range []func(*gen.Config){
+		func(c *gen.Config) { c.ExtraImports = false }, func(c *gen.Config) { c.OnlyModels = false },
+		func(c *gen.Config) { c.MinSizedInts = false }, func(c *gen.Config) { c.StructNameFromTitle = false },
+		func(c *gen.Config) { c.Tags = nil }, func(c *gen.Config) { c.Capitalizations = nil },
+	} {
+		if evals >= budget {
+			break
+		}
+		nc := *out
+		drop(&nc.Config)
+		evals++
+		if stillFails(&nc) {
+			out = &nc
+		}
+	}
+	return out, evals
+}
